@@ -1,7 +1,7 @@
 (* drv_search.ml -- line-protocol driver of the extracted C13 model (coq/SearchDefs.v).
    run <ic> <row> <off> <line,line,...(hex, with newline)> <cmd>...   cmd = /hex:cnt ?hex:cnt n:cnt N:cnt A:cnt
-     -> per command "ok row off" joined by ';', or "unsupported" when a pattern is outside the
-        reference matcher's subset
+     -> per command "ok row off soset so" joined by ';' (soset so = the remembered line offset after the
+        command), or "unsupported" when a pattern is outside the reference matcher's subset
    find <ic> <kw> <subject> <notbol>  -> b e | none          (the reference matcher as the code calls it)
    occ <ic> <kw> <line>               -> the successive matches of the whole line (character offsets) *)
 let pr = Printf.printf
@@ -26,7 +26,8 @@ let do_run ic row off lines cmds =
     let ((st1, ok), (r1, o1)) = search_cmd (fm_suffix (ref_rfind ic)) ref_rcomp !st lb c n !r !o in
     st := st1; r := r1; o := o1;
     if st1.kwd <> [] && not (ref_rcomp st1.kwd) then unsup := true;
-    out := Printf.sprintf "%d %d %d" (if ok then 1 else 0) (int_of_nat r1) (int_of_nat o1) :: !out) cmds;
+    out := Printf.sprintf "%d %d %d %d %d" (if ok then 1 else 0) (int_of_nat r1) (int_of_nat o1)
+             (if st1.soset then 1 else 0) (int_of_z st1.so) :: !out) cmds;
   if !unsup then pr "unsupported\n" else pr "%s\n" (String.concat ";" (List.rev !out))
 
 let () =
